@@ -63,6 +63,10 @@ assert len(SYMBOLS) == 87
 NARY_OPS = {"∑": r"\sum", "∏": r"\prod", "∫": r"\int", "∬": r"\iint", "∭": r"\iiint"}
 ACCENTS = {"̂": r"\hat", "̃": r"\tilde", "̄": r"\bar", "⃗": r"\vec", "̇": r"\dot"}
 FUNCS = ("sin", "cos", "tan", "log", "ln", "lim", "exp", "max", "min")
+# names that are not one of the nine but begin with / end with / contain one, are a proper prefix of one, or differ in
+# case: "other names", documented as rendered verbatim
+NEAR_FUNCS = ("sinc", "cosec", "tanh", "login", "lnx", "limit", "expr", "maxima", "minimum", "arcsin", "argmax", "plim",
+              "asinh", "relu max pool", "Sin", "LOG", "si", "ma")
 DOC_BEG = ("(", "[", "{", "|")
 DOC_END = (")", "]", "}", "|")
 NOVAL = "<noval>"          # marker: property element present, m:val attribute absent
@@ -443,9 +447,30 @@ def _render1(n: dict, a: Analysis, nd: bool, collect: bool) -> str:
     if k == "func":
         name_nodes = n["s"][0][1]
         name = g("fName")
-        if len(name_nodes) == 1 and name_nodes[0]["k"] == "r":
-            if name.strip() in FUNCS:
-                name = "\\" + name.strip()
+        nm = name.strip()
+        plain = all(x["k"] == "r" for x in name_nodes)
+        scripted = all(x["k"] == "r" or (x["k"] in ("sSub", "sSup", "sSubSup") and all(y["k"] == "r" for _, ch in x["s"] for y in ch))
+                       for x in name_nodes)
+        if collect:
+            low = nm.lower()
+            a.features.add("func:name=" + ("known" if nm in FUNCS else "near-miss" if any(f in low for f in FUNCS) else "other"))
+        if len(name_nodes) == 1 and plain:
+            if nm in FUNCS:
+                name = "\\" + nm
+        elif len(name_nodes) >= 2 and plain:
+            # the name is the text of m:fName; "other names verbatim".  Whether one of the nine names is recognised
+            # across run boundaries ('s' + 'in') is not documented.
+            if collect:
+                a.features.add("func:name-split-over-runs")
+                if nm in FUNCS:
+                    a.unclaimed.add("func:known-name-split-over-runs")
+        elif name_nodes and scripted:
+            # Word keeps scripts inside m:fName (sin^{2}, log_{2}).  A known name followed by a script may stay verbatim
+            # or become the command (not documented); a name that merely begins like a known one is "another name".
+            if collect:
+                a.features.add("func:name-with-script")
+                if any(nm.startswith(f) and not nm[len(f):len(f) + 1].isalpha() for f in FUNCS):
+                    a.unclaimed.add("func:known-name-with-script")
         else:
             if collect:
                 a.unclaimed.add("func:structured-or-split-name")
@@ -778,6 +803,8 @@ def random_node(rng, tok, depth: int, width: int, risky: str | None = None, brac
     if allv is None:
         allv = _CLEANV[kind] = [v for v in variants(kind) if _clean_variant(kind, v[0])]
     opts, shape = rng.choice(allv)
+    if kind == "func" and opts.get("name") == "<token>" and rng.random() < 0.5:
+        opts = dict(opts, name=rng.choice(NEAR_FUNCS))
     if kind == "d":
         # clean trees: every m:d spells out both delimiters unless nothing below it is a delimiter (checked by caller)
         opts = dict(opts)
